@@ -126,3 +126,19 @@ Section Run.
                           | OConfigureWrap k => Nat.max w k
                           end) ops w0.
 End Run.
+
+(* an operation that can be written in Rust for the column count C (the AVX2 and
+   the dispatching pipelines implement Stripe only for 32 columns) *)
+Definition op_typed (C : nat) (o : op) : bool :=
+  match o with
+  | OStripeInto b _ | OStripe b _ => backend_typed C b
+  | _ => true
+  end.
+
+(* the same history through the generic pipeline only *)
+Definition generic_op (o : op) : op :=
+  match o with
+  | OStripeInto _ s => OStripeInto BGeneric s
+  | OStripe _ s => OStripe BGeneric s
+  | o' => o'
+  end.
